@@ -67,6 +67,9 @@ def _register_cache_plugins():
     _registered = (SimHexKeyGenerator, SimSharedStore)  # keep alive: from_name walks __subclasses__()
 
 
+WORK_BUDGET = 2_000_000
+
+
 class C19(Prop):
     id = "C19"
     level = "exploration"
@@ -220,8 +223,15 @@ class C19(Prop):
         idx = None
         try:
             try:
-                (idx, simt), loop = run_sim(main, start_time=1000.0, tie_jitter=jitter, max_iterations=400000)
+                # a coroutine that spins without ever yielding (e.g. waiting in a loop on an asyncio.Event that is already set)
+                # never returns to the loop: no iteration count can see it.  The deterministic work bound does (measured:
+                # a run needs at most ~25 000 function entries + jumps; the bound is 80 x that).
+                with control.WorkBudget(WORK_BUDGET) as wb:
+                    (idx, simt), loop = run_sim(main, start_time=1000.0, tie_jitter=jitter, max_iterations=400000)
                 out.sim_seconds = simt
+                self._max_work = max(getattr(self, "_max_work", 0), wb.n)
+                if wb.n > WORK_BUDGET // 4:
+                    out.probe("work_over_quarter_budget")
             except control.SimDeadlock as e:
                 done = sorted(results)
                 parked = [ci for ci in range(len(sc["clients"])) if ci not in results]
@@ -229,7 +239,8 @@ class C19(Prop):
                             "clients %r never completed (nothing ready, nothing scheduled); parked tasks: %s" % (parked, "; ".join(e.parked)[:600]))
                 tr.log("deadlock", parked)
             except control.StepBudgetExceeded:
-                out.violate("incomplete", "livelock:batching=%s" % knobs["use_batching"], "event loop iterations exceeded 400000 without all clients completing")
+                parked = [ci for ci in range(len(sc["clients"])) if ci not in results]
+                out.violate("incomplete", "livelock:batching=%s" % knobs["use_batching"], "clients %r never completed: the run exceeded 400000 loop iterations or %d function entries + jumps (a task spinning without yielding to the loop)" % (parked, WORK_BUDGET))
         finally:
             embed_peer.set_world(None)
             if tmpdir:
